@@ -10,11 +10,38 @@
 -/
 import GoSecs.Lemmas.SmlInv
 import GoSecs.Lemmas.SmlCost
+import GoSecs.Lemmas.SmlGen
 import GoSecs.Gen.Facts
 import GoSecs.Gen.Consts
 
 namespace GoSecs.Props.C14
 open GoSecs GoSecs.Secs2 GoSecs.Sml
+
+/-! ## Tie to the source: functions regenerated from sml/errors.go and sml/parser.go
+
+  `Gen.sml_*` are re-translated from the working tree by tools/go2lean on every run (proofs of the ties in
+  GoSecs/Lemmas/SmlGen.lean); `= some …` also says the Go function cannot index out of range. -/
+
+/-- `newParseError`: the offset clamp and the line / column loop over `input[0:offset)` give the model's position,
+    for every input and every non-negative offset. -/
+theorem newParseError_gen (input : Bytes) (offset : Nat) (msg : Bytes) :
+    Gen.sml_newParseError input (offset : Int) msg =
+      some { Offset := ((newParseError input offset).offset : Int), Line := ((newParseError input offset).line : Int),
+             Col := ((newParseError input offset).col : Int), Msg := msg } :=
+  Sml.newParseError_gen input offset msg
+
+/-- `checkASCIICloseQuote(idx, q)`: the bound check, the quote comparison and the white-space scan up to `>` —
+    the model's `checkClose`, for every parser window, index and quote byte. -/
+theorem checkASCIICloseQuote_gen (p : Gen.sml_Parser) (idx : Nat) (q : UInt8) :
+    Gen.sml_Parser_checkASCIICloseQuote p (idx : Int) (q.toNat : Int) =
+      some (closeRes (checkClose q idx (p.data.drop idx))) :=
+  Sml.checkASCIICloseQuote_gen p idx q
+
+/-- `toUpperRune` on a byte is the model's `upperB`; `getIntFormatCode` is the 'I' / 'U' × width table. -/
+theorem scannerHelpers_gen (c s d : UInt8) :
+    Gen.sml_toUpperRune (c.toNat : Int) = ((upperB c).toNat : Int) ∧
+    Gen.sml_getIntFormatCode (s.toNat : Int) (d.toNat : Int) = intFormatCode s d :=
+  ⟨toUpperRune_gen c, getIntFormatCode_gen s d⟩
 
 /-! ## Error positions (`newParseError`) -/
 
